@@ -6,7 +6,7 @@ set -euo pipefail
 export GOFLAGS=-mod=mod GOPROXY=off GOSUMDB=off GOTOOLCHAIN=local
 V=/verif
 R=${VERIF_REPO:-/repo}
-B=$V/build
+B=${VERIF_BUILD:-$V/build}
 mkdir -p "$B"
 python3 - "$V" "$R" "$B" <<'PY'
 import json,os,sys
